@@ -442,8 +442,8 @@ func checkC02(c *core.Ctx) {
 	nschemas, ndocs, nload := 3, 150, 150
 	sizes := []int{4, 8, 14, 22}
 	if c.Thorough() {
-		nschemas, ndocs, nload = 20, 500, 3000
-		sizes = []int{4, 8, 14, 22, 30, 40}
+		nschemas, ndocs, nload = 60, 800, 12000
+		sizes = []int{4, 8, 14, 22, 30, 40, 56}
 	}
 	rng := rand.New(rand.NewSource(c.Seed*122949829 + 2))
 	tg := &TGen{R: rng}
